@@ -108,7 +108,7 @@ def parse_sets(tok):
 
 
 def parse_spec(line):
-    """driver line `<id> S a=.. w=.. af=.. wf=..` -> dict of sets;  `<id> M m e` -> dict(M=, onlyEnd=)"""
+    """driver line `<id> S a=.. w=.. af=.. wf=..` -> dict of sets;  `<id> M m` -> dict(M=)"""
     t = line.split()
     if len(t) >= 2 and t[1] == "S":
         d = {"kind": "S"}
@@ -116,8 +116,8 @@ def parse_spec(line):
             k, v = tok.split("=", 1)
             d[k] = parse_sets(v)
         return d
-    if len(t) >= 4 and t[1] == "M":
-        return {"kind": "M", "M": int(t[2]), "onlyEnd": int(t[3])}
+    if len(t) >= 3 and t[1] == "M":
+        return {"kind": "M", "M": int(t[2])}
     return {"kind": "BAD", "raw": line}
 
 
